@@ -1,6 +1,14 @@
 package harness
 
-import "strings"
+import (
+	"fmt"
+	"os"
+	"os/exec"
+	"path/filepath"
+	"regexp"
+	"sort"
+	"strings"
+)
 
 func concJobs(tier string) []Job {
 	var jobs []Job
@@ -30,8 +38,8 @@ func concJobs(tier string) []Job {
 						}
 					}
 					bd := bound
-					if tier != "thorough" && (strings.Contains(fs, ";") || fs != "" && !strings.Contains(strings.Join(in, ";"), "A w/f")) {
-						bd = 1 // quick: two-step filesystem threads, and filesystem threads on a file that is not watched initially, at bound 1
+					if tier != "thorough" && (strings.Contains(fs, ";") || fs != "" && strings.Join(in, ";") != "A w/f") {
+						bd = 1 // quick: two-step filesystem threads at bound 1; one-step ones at bound 2 only from the watch set {f}
 					}
 					add(in, a, b, fs, bd)
 				}
@@ -56,8 +64,128 @@ func concJobs(tier string) []Job {
 	return jobs
 }
 
+// racePass runs cmd/vrace (built with -race from the working tree's uninstrumented package by vcheck):
+// the same two-caller programs as real goroutines. Sampling, supplementary: it can only add reports.
+func racePass(tier string) (map[string]any, []Violation, []string) {
+	bin := os.Getenv("VRACE_BIN")
+	cov := map[string]any{}
+	if bin == "" {
+		cov["free_running_race_pass"] = "not run (no race-enabled build available)"
+		return cov, nil, nil
+	}
+	dir, err := os.MkdirTemp("/dev/shm", "vracelog-")
+	if err != nil {
+		dir, err = os.MkdirTemp("", "vracelog-")
+	}
+	if err != nil {
+		return cov, nil, nil
+	}
+	defer os.RemoveAll(dir)
+	reps := "3"
+	if tier == "thorough" {
+		reps = "27"
+	}
+	cmd := exec.Command(bin, "-reps", reps)
+	cmd.Env = append(os.Environ(), "GORACE=log_path="+filepath.Join(dir, "race")+" exitcode=66 halt_on_error=0")
+	out, rerr := cmd.CombinedOutput()
+	reports := parseRaceLogs(dir)
+	summary := strings.TrimSpace(string(out))
+	if i := strings.LastIndex(summary, "vrace:"); i >= 0 {
+		summary = summary[i:]
+	}
+	cov["free_running_race_pass"] = map[string]any{"note": "sampling, supplementary to the exhaustive exploration; not part of the coverage claim", "result": summary, "race_reports": len(reports)}
+	if rerr != nil && len(reports) == 0 {
+		if ee, ok := rerr.(*exec.ExitError); !ok || ee.ExitCode() != 66 {
+			// the pass itself broke (e.g. the changed tree panics when used by real goroutines): say so, decide nothing
+			cov["free_running_race_pass"] = map[string]any{"note": "the pass did not complete; nothing is concluded from it", "error": rerr.Error(), "output_tail": tailStr(string(out), 600)}
+		}
+		return cov, nil, nil
+	}
+	var vs []Violation
+	seen := map[string]bool{}
+	for _, r := range reports {
+		sig := "data race (free-running pass): " + raceSig(r)
+		if seen[sig] {
+			continue
+		}
+		seen[sig] = true
+		vs = append(vs, Violation{Property: "C07", Scenario: "race/free-running", Signature: sig, Detail: tailStr(r, 3000)})
+	}
+	return cov, vs, nil
+}
+
+func tailStr(s string, n int) string {
+	if len(s) > n {
+		return s[:n] + "..."
+	}
+	return s
+}
+
+func parseRaceLogs(dir string) []string {
+	var out []string
+	files, _ := filepath.Glob(filepath.Join(dir, "race.*"))
+	sort.Strings(files)
+	for _, f := range files {
+		b, err := os.ReadFile(f)
+		if err != nil {
+			continue
+		}
+		for _, blk := range strings.Split(string(b), "==================") {
+			if strings.Contains(blk, "WARNING: DATA RACE") {
+				out = append(out, strings.TrimSpace(blk))
+			}
+		}
+	}
+	return out
+}
+
+var raceFn = regexp.MustCompile(`(?m)^  (github\.com/fsnotify/fsnotify\.[^\s(]+)\(`)
+
+// raceSig: the library functions on top of the two stacks (stable across runs, no addresses or line numbers).
+func raceSig(report string) string {
+	var fns []string
+	parts := regexp.MustCompile(`(?m)^(Write|Read|Previous write|Previous read) at `).Split(report, -1)
+	for _, p := range parts[1:] {
+		if m := raceFn.FindStringSubmatch(p); m != nil {
+			fns = append(fns, strings.TrimPrefix(m[1], "github.com/fsnotify/fsnotify."))
+		} else {
+			fns = append(fns, "?")
+		}
+		if len(fns) == 2 {
+			break
+		}
+	}
+	sort.Strings(fns)
+	return strings.Join(fns, " / ")
+}
+
+func raceReplay(v *Violation) int {
+	bin := os.Getenv("VRACE_BIN")
+	if bin == "" {
+		fmt.Println("replay: no race-enabled build available")
+		return 2
+	}
+	dir, _ := os.MkdirTemp("", "vracelog-")
+	defer os.RemoveAll(dir)
+	cmd := exec.Command(bin, "-reps", "27")
+	cmd.Env = append(os.Environ(), "GORACE=log_path="+filepath.Join(dir, "race")+" exitcode=66 halt_on_error=0")
+	cmd.CombinedOutput()
+	for _, r := range parseRaceLogs(dir) {
+		sig := "data race (free-running pass): " + raceSig(r)
+		fmt.Printf("violation: property=C07 signature=%q\n", sig)
+		if sig == v.Signature {
+			fmt.Println(tailStr(r, 3000))
+			fmt.Println("VIOLATION property=C07 replay=(free-running pass re-run)")
+			return 1
+		}
+	}
+	fmt.Println("replay: the recorded race was not reported in this re-run (the pass samples schedules)")
+	return 0
+}
+
 func init() {
-	Checks["C07"] = &CheckDef{Prop: "C07", Jobs: concJobs,
+	DirectReplays["C07"] = raceReplay
+	Checks["C07"] = &CheckDef{Prop: "C07", Jobs: concJobs, Side: racePass,
 		Rule:      "E1: every schedule up to the preemption bound of closed programs {initial watch set} x {two API threads, one or two calls each from Add/Remove/WatchList/Close over paths forced to collide: one directory in two spellings, a file and its symlink} x {a filesystem thread deleting, recreating, renaming the file or streaming events into the directory}, on the instrumented real code with the reader thread; a state is one maximal execution, a transition one scheduler step",
 		Technique: "stateless model checking (preemption-bounded schedule enumeration of the real code) with, per execution, lockset assertions on every access to the guarded tables, panic/deadlock detection, and a linearizability check of the recorded call/return history against a nondeterministic sequential watch-set model (porcupine v1.3.0)",
 		Assume:    []string{"lockset discipline as specified in vinst.DefaultGuards (watch tables under mu, cookie ring under cookiesMu)", "a supplementary free-running -race pass is not a deciding step"}}
